@@ -40,11 +40,20 @@ pub struct EncOpts {
     /// the first term id of every gene / disease record that lists terms is listed a second time at the end of
     /// the record (count and total length include the repetition). Unspecified for decoders.
     pub repeat_term_ids: bool,
+    /// write the ids inside a parent record / a gene or disease record in the order of the facts instead of
+    /// ascending. The crate's own writer emits ascending lists and the layout tables do not say whether a reader
+    /// has to accept another order, so only the spaces that enumerate id orders (with a refuse-or-exact oracle)
+    /// ask for it.
+    pub ids_in_list_order: bool,
 }
 
 impl EncOpts {
     pub fn v(version: u8) -> EncOpts {
-        EncOpts { version, parents_order: None, omit_empty_parent_records: false, repeat_records: false, split_parent_records: false, repeat_parent_ids: false, repeat_term_ids: false }
+        EncOpts { version, parents_order: None, omit_empty_parent_records: false, repeat_records: false, split_parent_records: false, repeat_parent_ids: false, repeat_term_ids: false, ids_in_list_order: false }
+    }
+    /// ids inside records in the order of the facts
+    pub fn list_order(version: u8) -> EncOpts {
+        EncOpts { ids_in_list_order: true, ..EncOpts::v(version) }
     }
 }
 
@@ -149,7 +158,10 @@ impl Sections {
         let mut parents = vec![];
         for i in order {
             let id = f.terms[i].id;
-            let ps: Vec<u32> = f.edges.iter().filter(|e| e.0 == id).map(|e| e.1).collect();
+            let mut ps: Vec<u32> = f.edges.iter().filter(|e| e.0 == id).map(|e| e.1).collect();
+            if !o.ids_in_list_order {
+                ps.sort_unstable();
+            }
             if ps.is_empty() && o.omit_empty_parent_records {
                 continue;
             }
@@ -166,6 +178,9 @@ impl Sections {
             for (id, name, terms) in records_of(f, k) {
                 let write = |list: &[u32]| -> Vec<u8> {
                     let mut l = list.to_vec();
+                    if !o.ids_in_list_order {
+                        l.sort_unstable();
+                    }
                     if o.repeat_term_ids && !l.is_empty() {
                         l.push(l[0]);
                     }
